@@ -104,6 +104,7 @@ int me() { return tid() & (MAXT - 1); }
 // ---------------------------------------------------------------------------
 // recording upstream
 void RecUpstream::allocate(void** out, size_t num) noexcept {
+  sim::yield_point();  // a real upstream synchronises inside
   int t = me();
   if ((S->cache || S->heap) && !S->batch && S->cur_n[t] > 0 && S->cur_alloc[t] && (size_t)S->cur_n[t] <= S->cap) probe("compensating_push_ran");
   if ((S->cache || S->heap) && !S->batch && S->cur_n[t] > 0 && S->cur_alloc[t] && (size_t)S->cur_n[t] > S->cap) probe("beyond_capacity_allocate");
@@ -118,6 +119,7 @@ void RecUpstream::allocate(void** out, size_t num) noexcept {
 }
 
 void RecUpstream::deallocate(void** in, size_t num) noexcept {
+  sim::yield_point();
   int t = me();
   if (!S->destroying && (S->cache || S->heap) && !S->batch && S->cur_n[t] > 0 && !S->cur_alloc[t] && (size_t)S->cur_n[t] <= S->cap) probe("compensating_pop_ran");
   for (size_t i = 0; i < num; i++) {
